@@ -2,6 +2,7 @@ SPECIFICATION Spec
 CONSTANTS K = 1 SendPuncture = FALSE PunctureFirst = TRUE FollowAll = FALSE MaxId = 24 QuietCalls = TRUE
           APlaces = {"pub", "nat"} CandPlaces = {"pub", "nat", "withA"}
           MaxContactsA = 2 MaxContactsB = 2
+          MinContacts = 1 MaxRebinds = 0 Clock0 = 0 Refresh = TRUE Ident16 = TRUE
 INVARIANT TypeOK
 INVARIANT Reach
 INVARIANT LanMeet
